@@ -357,6 +357,9 @@ func (s *Session) writer(e *End) func(t *kernel.Task) {
 					continue
 				}
 				m := rtmp.NewStreamMessage(int(uint32(op.N[1])))
+				if op.N[1] == 0 && op.N[4]%2 == 0 {
+					m = rtmp.NewMessage() // the other exported constructor (stream id 0)
+				}
 				m.MessageType = rtmp.MessageType(op.N[0])
 				m.Timestamp = uint64(op.N[2])
 				m.Payload = Body(op)
